@@ -5,7 +5,7 @@
    used to state the round-trip theorems). *)
 From ReqV Require Import Lib.Bytes Model.H1Resp Model.H1Render Model.H1RenderHead
   Proofs.H1RespProofs Proofs.H1HeadProofs Proofs.H1MimeProofs Proofs.H1TransferProofs
-  Model.H1Conn Proofs.H1SyncProofs.
+  Model.H1Conn Proofs.H1SyncProofs Proofs.H1ConnProofs.
 From ReqV Require Gen.H1Tables.
 From Coq Require Import Lia.
 
@@ -358,6 +358,32 @@ Theorem C04_keep_alive_boundary : forall meth bufsize s r b t,
 Proof. exact keep_alive_boundary. Qed.
 Print Assumptions C04_keep_alive_boundary.
 
+(* The client (1xx skipping + idle-pool decision): if the connection goes back to the idle pool
+   after [s], nothing of [s] was left unread, and had the server sent ANY further bytes [t], the
+   caller would have seen the same response/body/trailers with exactly [t] left: the response
+   to the next request starts at the first byte of [t]. *)
+Theorem C04_reusable_exact_boundary : forall meth s cv t,
+  client_read meth s = Some cv -> cv_reusable cv = true ->
+  b_rest (cv_body cv) = [] /\ b_end (cv_body cv) = BOk /\ r_close (cv_resp cv) = false /\
+  exists cv', client_read meth (s ++ t) = Some cv' /\
+              cv_resp cv' = cv_resp cv /\ b_data (cv_body cv') = b_data (cv_body cv) /\
+              b_trailer (cv_body cv') = b_trailer (cv_body cv) /\ b_end (cv_body cv') = BOk /\
+              b_rest (cv_body cv') = t.
+Proof. exact reusable_exact_boundary. Qed.
+Print Assumptions C04_reusable_exact_boundary.
+
+Theorem C04_read_final_is_final : forall fuel meth n s r rest,
+  read_final fuel meth n s = FhOk r rest -> is_1xx_nonterminal (r_code r) = false.
+Proof. exact read_final_is_final. Qed.
+Print Assumptions C04_read_final_is_final.
+
+(* x read buffer sizes: an accepted status line + header block + transfer decision does not
+   depend on the read-buffer size *)
+Theorem C04_accepted_head_bufsize_independent : forall meth b1 b2 s r rest,
+  read_response_head meth b1 s = inr (r, rest) -> read_response_head meth b2 s = inr (r, rest).
+Proof. exact accepted_head_bufsize_independent. Qed.
+Print Assumptions C04_accepted_head_bufsize_independent.
+
 (* non-vacuity: concrete odd-looking but valid chunkings satisfy the hypotheses *)
 Example C04_nonvacuous :
   chunks_ok 64 0 [(bs "5", bs "hello"); (bs "0006;ext=1 ", bs " world"); (bs "A", bs "0123456789")] /\
@@ -395,3 +421,16 @@ Proof.
   cbn zeta. split; [|vm_compute; repeat split].
   repeat constructor; cbn; try discriminate; try reflexivity.
 Qed.
+
+(* ... and a stream with two informational responses in front of a chunked response with a
+   trailer is reusable (hypotheses of the client-level boundary theorem are satisfiable) *)
+Example C04_client_nonvacuous :
+  let s := bs "HTTP/1.1 100 Continue" ++ CRLF ++ CRLF ++ bs "HTTP/1.1 103 Early Hints" ++ CRLF ++
+           bs "Link: </a>" ++ CRLF ++ CRLF ++ bs "HTTP/1.1 200 OK" ++ CRLF ++
+           bs "Transfer-Encoding: chunked" ++ CRLF ++ bs "Trailer: X-T" ++ CRLF ++ CRLF ++
+           bs "2" ++ CRLF ++ bs "hi" ++ CRLF ++ bs "0" ++ CRLF ++ bs "X-T: 1" ++ CRLF ++ CRLF in
+  match client_read (bs "GET") s with
+  | Some cv => cv_reusable cv = true /\ b_data (cv_body cv) = bs "hi" /\ r_code (cv_resp cv) = 200%Z
+  | None => False
+  end.
+Proof. vm_compute. repeat split. Qed.
